@@ -31,6 +31,19 @@ Theorem c12_parity_type :
   snd r1 = snd r2 /\ resp_to_lua pc (fst r1) = resp_to_lua pc (fst r2).
 Proof. exact parity_type_conv. Qed.
 
+(** ... hence, at the level of scripts: redis.call / redis.pcall of a catalogue command, its
+    result returned, has the dataset effect of the directly sent command and answers the
+    direct reply pushed through the two conversions (an error: abort under call, nil under pcall) *)
+Theorem c12_call_same_as_direct :
+  forall now d keys argv pc nm args r d',
+  forallb utf8_valid (nm :: args) = true ->
+  In (upper nm) Exec.catalogue ->
+  known now d (upper nm) args = false ->
+  exec_db now d (upper nm) (bulks (nm :: args)) None = Some (r, d') ->
+  run_script now d keys argv (single_call pc (nm :: args)) =
+    (match resp_to_lua pc r with CVal v => lua_to_resp v | CErr => r_err end, d').
+Proof. exact call_same_as_direct. Qed.
+
 (** the classes are genuine: on each of them the two paths differ *)
 Definition d_k : db := set_value 0 empty_db (bs "k") (VStr (bs "v")) None.
 Definition d_kt : db := set_value 0 empty_db (bs "k") (VStr (bs "v")) (Some 100500).
